@@ -488,15 +488,22 @@ def amalgamate_csr_to_x(
             n_valid += src['data'].shape[0]
             if data_dtype is None:
                 data_dtype = src['data'].dtype
-            this_max = src['indices'][()].max()
-            if this_max > indices_max:
-                indices_max = this_max
+            if src['indices'].shape[0] > 0:
+                this_max = src['indices'][()].max()
+                if this_max > indices_max:
+                    indices_max = this_max
 
     cutoff = np.iinfo(np.int32).max
     if indices_max >= cutoff or n_valid >= cutoff:
         index_dtype = np.int64
     else:
         index_dtype = np.int32
+
+    # an empty dataset cannot be given a chunk shape
+    if n_valid > 0:
+        data_chunks = min(n_valid, 20000)
+    else:
+        data_chunks = None
 
     with h5py.File(dst_path, 'a') as dst:
         grp = dst.create_group(dst_grp)
@@ -510,14 +517,14 @@ def amalgamate_csr_to_x(
         dst_data = grp.create_dataset(
             'data',
             shape=(n_valid,),
-            chunks=min(n_valid, 20000),
+            chunks=data_chunks,
             dtype=data_dtype,
             compression=compression,
             compression_opts=compression_opts)
         dst_indices = grp.create_dataset(
             'indices',
             shape=(n_valid,),
-            chunks=min(n_valid, 20000),
+            chunks=data_chunks,
             dtype=index_dtype,
             compression=compression,
             compression_opts=compression_opts)
